@@ -32,6 +32,7 @@ func (m *govMonitor) observe(line string, pos []string, res chainx.Result, evs [
 	sig, method, args := pos[1], pos[2], pos[3:]
 	v := func(what, detail string) { w.run.Violation("C19", "alphabet."+method, what, detail+" after "+line) }
 	want := append([]int64{}, prev.gas...)
+	var untracked int64 // GAS sent to parties whose balance is not tracked
 	switch method {
 	case "emit":
 		var inst *govInst
@@ -40,15 +41,17 @@ func (m *govMonitor) observe(line string, pos []string, res chainx.Result, evs [
 				inst = &w.insts[i]
 			}
 		}
+		// "can be triggered only by its own Alphabet node": the committee member number `index` (the Alphabet =
+		// neo.GetCommittee()), whatever the designated Inner Ring list looks like
+		own := inst.index >= 0 && inst.index < len(w.c.Members) && w.act.witnessed(sig, w.c.Members[inst.index].ScriptHash())
+		g := prev.gas[m.idx(inst.tag)]
+		n := int64(len(prev.ir))
+		toProxy := g / 2
 		if res.Halt {
-			// only its own Alphabet node: committee member number `index`
-			ok := inst.index >= 0 && inst.index < len(w.c.Members) && w.act.witnessed(sig, w.c.Members[inst.index].ScriptHash())
-			if !ok {
-				v("emit-by-foreign-invoker", fmt.Sprintf("emit of instance %s (index %d) executed for signers %s", inst.tag, inst.index, sig))
+			if !own {
+				v("emit-by-foreign-node", fmt.Sprintf("emit of instance %s (Alphabet index %d) executed for signers %s, none of which is Alphabet node %d; Inner Ring %v",
+					inst.tag, inst.index, sig, inst.index, prev.ir))
 			}
-			g := prev.gas[m.idx(inst.tag)]
-			n := int64(len(prev.ir))
-			toProxy := g / 2
 			if n == 0 || toProxy == 0 {
 				v("emit-without-funds-or-ring", fmt.Sprintf("emit executed with balance %d and %d Inner Ring nodes", g, n))
 				break
@@ -57,11 +60,37 @@ func (m *govMonitor) observe(line string, pos []string, res chainx.Result, evs [
 			want[m.idx(inst.tag)] -= toProxy + per*n
 			want[m.idx("proxy")] += toProxy
 			for _, t := range prev.ir {
-				want[m.idx(t[1:])] += per
+				if i := m.idx(t[1:]); i >= 0 {
+					want[i] += per
+				} else if per != 0 {
+					// an Inner Ring node whose balance is not tracked (committee members collect block rewards): its
+					// share is read off the native GAS Transfer notifications
+					untracked += per
+					need := fmt.Sprintf("T(@%s,%s,%d)", inst.tag, t, per)
+					have, wantN := 0, 0
+					for _, e := range evs {
+						if e == need {
+							have++
+						}
+					}
+					for _, t2 := range prev.ir {
+						if t2 == t {
+							wantN++
+						}
+					}
+					if have != wantN {
+						v("wrong-gas-movement", fmt.Sprintf("%d transfers %s, the property says %d", have, need, wantN))
+					}
+				}
 			}
 			if g-toProxy-per*n < 0 {
 				v("negative-remainder", "")
 			}
+		} else if own && toProxy > 0 && n > 0 {
+			// its own Alphabet node, enough GAS to emit (floor(g/2) > 0) and a designated Inner Ring: nothing in the
+			// property or the method's documentation lets the emission be refused
+			v("emit-own-node-rejected", fmt.Sprintf("emit of instance %s (Alphabet index %d, balance %d) signed by its own Alphabet node %s was refused; Inner Ring %v",
+				inst.tag, inst.index, g, sig, prev.ir))
 		}
 	case "fund":
 		if res.Halt && len(res.Stack) == 1 && mustBool(res.Stack[0]) {
@@ -92,7 +121,7 @@ func (m *govMonitor) observe(line string, pos []string, res chainx.Result, evs [
 			v("wrong-gas-movement", fmt.Sprintf("%s holds %d, the property says %d (before %d)", w.gasTrack[i].tag, st.gas[i], want[i], prev.gas[i]))
 		}
 	}
-	if sumPrev != sumNow {
+	if sumPrev != sumNow+untracked {
 		v("gas-created-or-lost", fmt.Sprintf("total over all parties %d -> %d", sumPrev, sumNow))
 	}
 	if st.stor != w.storage0 {
